@@ -2,7 +2,7 @@
 import PCV.Engine
 import PCV.Util.Wire
 import PCV.Model.Reporter
-import PCV.Props.C08
+import PCV.Spec.Reporter
 namespace PCV.Engines
 open PCV.Wire PCV.Reporter
 
@@ -70,7 +70,7 @@ def reporterSpec (st : RSpec) (line ans : String) : RSpec × String :=
   | ["herr", _, wp, e] => match wp.toNat?, e.toNat? with
     | some wp, some e =>
       let latchedBefore := st.r.1.err
-      let r' := Props.C08.specStep rep st.r (wp != 0, e)
+      let r' := Spec.Reporter.specStep rep st.r (wp != 0, e)
       let st' := { st with r := r', anyHandled := true }
       -- once latched, every HandleError returns the latched error; otherwise what the spec says
       let expect := match latchedBefore with
